@@ -157,6 +157,7 @@ func FindInsertionPoints(
 			newInsertionPoints := [][]string{}
 
 			// each value in the result contributes an insertion point
+		entries:
 			for entryI, iEntry := range rootList {
 				// a null entry of a nullable list has nothing to stitch into
 				if iEntry == nil {
@@ -192,8 +193,10 @@ func FindInsertionPoints(
 								return nil, err
 							}
 
+							// an entry of a type the query has no fragment for has nothing to stitch,
+							// the other entries of the list still do
 							if id == nil {
-								return nil, nil
+								continue entries
 							}
 
 							// add the id to the entry so that the executor can use it to form its query
